@@ -5,8 +5,8 @@ CONSTANTS
   NP = 1
   NCh = 1
   BitsSel = "2-4-8"
-  CMin = 30
-  CMax = 34
+  CMin = 31
+  CMax = 33
   Extra = 0
 INVARIANT InvLayerComposition
 INVARIANT InvLayerPromotes
